@@ -849,7 +849,7 @@ pub struct ATrace {
 }
 
 /// Drives `TagIteratorAsync::next()` (use_stream = false) or the `into_stream()` adapter.
-pub fn run_async_t<T: Spec>(input: &Arc<Vec<u8>>, buffered: &[u64], script: &AScript, use_stream: bool, max_items: usize) -> ATrace {
+pub fn run_async_t<T: Spec>(input: &Arc<Vec<u8>>, buffered: &[u64], script: &AScript, use_stream: bool, max_items: usize, after_error: usize) -> ATrace {
     use ebml_iterable::nonblocking::TagIteratorAsync;
     use futures::StreamExt;
     let deferred = Arc::new(DeferredWakes::default());
@@ -859,6 +859,7 @@ pub fn run_async_t<T: Spec>(input: &Arc<Vec<u8>>, buffered: &[u64], script: &ASc
     let mut polls = 0usize;
     let max_polls = 4 * (input.len() + script.events.len()) + 4 * max_items + 64;
     let mut exec_error = None;
+    let mut errors_seen = 0usize;
 
     // The source is shared through a cell so that counters can be read afterwards.
     struct Shared(std::rc::Rc<std::cell::RefCell<SimAsyncRead>>);
@@ -880,7 +881,11 @@ pub fn run_async_t<T: Spec>(input: &Arc<Vec<u8>>, buffered: &[u64], script: &ASc
                     Ok(Some(Ok(t))) => evs.push(Ev::Tag(to_tagv::<T>(&t), usize::MAX)),
                     Ok(Some(Err(e))) => {
                         evs.push(Ev::Err(conv_err(&e)));
-                        break;
+                        // the caller may go on after an error (a bounded number of further calls)
+                        if errors_seen >= after_error {
+                            break;
+                        }
+                        errors_seen += 1;
                     }
                     Ok(None) => {
                         evs.push(Ev::None);
@@ -911,7 +916,11 @@ pub fn run_async_t<T: Spec>(input: &Arc<Vec<u8>>, buffered: &[u64], script: &ASc
                     Ok(Some(Ok(t))) => evs.push(Ev::Tag(to_tagv::<T>(&t), it.last_emitted_tag_offset())),
                     Ok(Some(Err(e))) => {
                         evs.push(Ev::Err(conv_err(&e)));
-                        break;
+                        // the caller may go on after an error (a bounded number of further calls)
+                        if errors_seen >= after_error {
+                            break;
+                        }
+                        errors_seen += 1;
                     }
                     Ok(None) => {
                         evs.push(Ev::None);
@@ -940,13 +949,13 @@ pub fn run_async_t<T: Spec>(input: &Arc<Vec<u8>>, buffered: &[u64], script: &ASc
     ATrace { evs, exec_error, polls, reads: s.reads, pendings: s.pendings, end_reads: s.end_reads, split_sizes: s.split_sizes.clone(), failures: s.failures.clone() }
 }
 
-pub fn run_async(spec: &SpecTable, input: &Arc<Vec<u8>>, buffered: &[u64], script: &AScript, use_stream: bool, max_items: usize) -> ATrace {
+pub fn run_async(spec: &SpecTable, input: &Arc<Vec<u8>>, buffered: &[u64], script: &AScript, use_stream: bool, max_items: usize, after_error: usize) -> ATrace {
     match spec.kind {
         SpecKind::Dyn => {
             crate::spec::install(spec);
-            run_async_t::<DTag>(input, buffered, script, use_stream, max_items)
+            run_async_t::<DTag>(input, buffered, script, use_stream, max_items, after_error)
         }
-        SpecKind::Static => run_async_t::<StaticSpec>(input, buffered, script, use_stream, max_items),
-        SpecKind::Static2 => run_async_t::<StaticSpec2>(input, buffered, script, use_stream, max_items),
+        SpecKind::Static => run_async_t::<StaticSpec>(input, buffered, script, use_stream, max_items, after_error),
+        SpecKind::Static2 => run_async_t::<StaticSpec2>(input, buffered, script, use_stream, max_items, after_error),
     }
 }
